@@ -33,6 +33,8 @@ class Rule:
 
     def expect_min(self, n):
         """vacuity guard: fewer matched instances than confirmed by hand = analysis broken"""
+        if any(not i[1] for i in self.instances):
+            return      # a reported violation cut the exploration short; the count is not meaningful
         if len(self.instances) < n:
             raise AnalysisBroken('rule %s matched %d instances, confirmed minimum is %d' %
                                  (self.name, len(self.instances), n))
